@@ -439,3 +439,20 @@ Proof.
   unfold rows_fit_b, rows_fit. intro H. apply Forall_forall. intros r I.
   rewrite forallb_forall in H. apply Z.eqb_eq. apply H. exact I.
 Qed.
+
+(* the checkers are also complete: they reject nothing that meets the property *)
+Theorem sf_check_complete dt rows ukeys o : sf_ok dt rows ukeys o -> sf_check dt rows ukeys o = true.
+Proof.
+  unfold sf_ok, sf_check. intros [H1 [H2 [H3 [H4 H5]]]].
+  rewrite (proj2 (dtype_eqb_eq _ _) H1), (proj2 (rows_eqb_eq _ _) H2), (proj2 (Z.eqb_eq _ _) H3),
+          (proj2 (dtype_eqb_eq _ _) H4). cbn [andb].
+  apply forallb_forall. intros k I. destruct (reserved k) eqn:R; [reflexivity|]. cbn [orb].
+  unfold key_kept. apply existsb_exists. exists (k, true). split; [exact (H5 k I R)|].
+  cbn [fst snd]. rewrite bytes_eqb_refl. reflexivity.
+Qed.
+
+Theorem rf_check_complete dt rows o : rf_ok dt rows o -> rf_check dt rows o = true.
+Proof.
+  unfold rf_ok, rf_check. intros [H1 H2].
+  rewrite (proj2 (dtype_eqb_eq _ _) H1), (proj2 (rows_eqb_eq _ _) H2). reflexivity.
+Qed.
